@@ -156,7 +156,7 @@ SBuf::rawAppendFinish(const char *start, size_type actualSize)
 char *
 SBuf::rawSpace(size_type minSpace)
 {
-    Must(length() <= maxSize - minSpace);
+    Must(minSpace <= maxSize && length() <= maxSize - minSpace); // the subtraction must not wrap
     debugs(24, 7, "reserving " << minSpace << " for " << id);
     ++stats.rawAccess;
     // we're not concerned about RefCounts here,
